@@ -75,6 +75,10 @@ def gen_pairs(rng, info, user_var=None):
     tb = rng.choice(['(step 2)', '(do (step 1) top.a)', f'(+ {v} INDEX)', '(do (step-until (= top.clk 1)) INDEX)'])
     out.append(('timeframe', f'(list (timeframe {tb} (list INDEX top.a)) INDEX)',
                 f'(let ([i0__ INDEX] [r__ (do {tb} (list INDEX top.a))]) (step (- i0__ INDEX)) (list r__ INDEX))'))
+    # append for every kind of first operand: a list, a string, a number (+ is overloaded on all of them)
+    xs_ = rng.choice(["'(1 2)", '"abc"', '4', "'()", "'((1) 2)"])
+    x_ = rng.choice(['3', '"d"', "'(5 6)", "'()"])
+    out.append(('append', f'(append {xs_} {x_})', f'(+ {xs_} (let ([t__ {x_}]) (if (list? t__) (list t__) t__)))'))
     # user macro: arguments unevaluated, expanded before evaluation, call = evaluation of macroexpand
     out.append(('defmacro', f'(do (defmacro m2 [x y] `(list ,y ,x ,y)) 0)', '(+ 0 0)'))
     return out
